@@ -732,7 +732,7 @@ def r11_evaluation_state(ctx, sm):
         rep.ok("C14.R11", f"{SYS}:System", "no evaluation method of System writes an attribute of the system (nothing can go stale)", trivial=False)
 
 
-def r13_subsystem_first(ctx):
+def r13_subsystem_first(ctx, rule="C14.R13", want=lambda rel: True, floor=3):
     """Force laws, actuators and controllers copy qDOF / uDOF of the subsystem they act on (`self.subsystem.qDOF`).  Those tables are written
     by the subsystem's own assembler_callback; the copy is current only if that callback has run in THIS assembly before the copy is taken.
     System.assemble calls the callbacks in the order of the contribution list, which add / remove sequences change: a contribution that does
@@ -743,7 +743,7 @@ def r13_subsystem_first(ctx):
     n = 0
     done = set()
     for ci in ctx.model.all_classes():
-        if not ci.rel.startswith("cardillo/") or "assembler_callback" not in ci.methods:
+        if not ci.rel.startswith("cardillo/") or "assembler_callback" not in ci.methods or not want(ci.rel):
             continue
         fn = ci.methods["assembler_callback"]
         key = (ci.rel, ci.qual)
@@ -783,13 +783,13 @@ def r13_subsystem_first(ctx):
                                     return runs_first(cc, f2, 10**9)
             return False
         if runs_first(ci, fn, first):
-            rep.ok("C14.R13", C, "runs self.subsystem.assembler_callback() before copying the subsystem's DOF tables")
+            rep.ok(rule, C, "runs self.subsystem.assembler_callback() before copying the subsystem's DOF tables")
         else:
-            rep.bad("C14.R13", C, reads[0], f"`{norm_src(reads[0])}` is copied without running `self.subsystem.assembler_callback()` first (the force laws do): if the subsystem stands later in "
+            rep.bad(rule, C, reads[0], f"`{norm_src(reads[0])}` is copied without running `self.subsystem.assembler_callback()` first (the force laws do): if the subsystem stands later in "
                     "the contribution list - after a remove / add sequence - the copy is the layout of the PREVIOUS assembly and the contribution acts on coordinates that are not its "
                     "subsystem's (or the first assembly fails with AttributeError)", f"{ci.rel}:{reads[0].lineno}")
-    if n < 3:
-        raise AnalysisError(f"C14.R13: only {n} assembler callbacks that copy a subsystem's DOF tables found")
+    if n < floor:
+        raise AnalysisError(f"{rule}: only {n} assembler callbacks that copy a subsystem's DOF tables found")
 
 
 def r12_closures(ctx):
